@@ -474,6 +474,14 @@ impl<'a> Run<'a> {
                 self.now += a["d"].as_i64().unwrap();
                 json!({})
             }
+            // sleep as the worker does: up to the instant the real object asks to be maintained next (whole ticks, >= 1)
+            "sleep" => {
+                let ms = self.vps.next_maintain(self.st()).as_millis() as i64;
+                let u = self.cfg.unit as i64 * 1000;
+                let d = ((ms + u - 1) / u).max(1);
+                self.now += d;
+                json!({"d": d})
+            }
             "tick" => {
                 let f = &a["fetch"];
                 let resp: Option<Result<Vec<ScionPath>, String>> = match f["k"].as_str() {
@@ -704,7 +712,8 @@ fn record(metap: &str, outp: &str) {
         let p_send = *rng.pick(&[5u64, 20, 50]);
         while (steps.len() as u64) < nsteps {
             let s = run.vps.snapshot(run.st());
-            let nm = run.vps.next_maintain(run.st()).as_secs() as i64 / cfg.unit as i64;
+            // whole ticks until the next maintenance instant, rounded up (with backoff jitter the instant is off the grid)
+            let nm = (run.vps.next_maintain(run.st()).as_millis() as i64 + cfg.unit as i64 * 1000 - 1) / (cfg.unit as i64 * 1000);
             let a: Value = if s.issue_pending > 0 && !rng.chance(burst.saturating_sub(1), burst.max(1)) {
                 json!({"a": "ingest"})
             } else if !uni.issues.is_empty() && rng.chance(p_issue, 100) {
@@ -731,6 +740,7 @@ fn record(metap: &str, outp: &str) {
                         let p = rng.pick(&uni.paths);
                         ps.push(json!({"id": p.id, "exp": run.now + *rng.pick(&exp_choices), "v": variant(&mut rng)}));
                     }
+                    rng.shuffle(&mut ps);      // the position of the conforming paths in the lookup result varies
                     json!({"k": "ok", "paths": ps})
                 };
                 json!({"a": "tick", "fetch": fetch})
